@@ -290,6 +290,7 @@ type Config struct {
 	NoQuiesce    bool    `json:"noQuiesce,omitempty"`
 	SaneOnly     bool    `json:"saneOnly,omitempty"` // clear pause/freeze annotations before quiesce
 	TargetRollback bool  `json:"targetRollback,omitempty"` // bias faults onto the EDS reconciler's status/spec writes
+	TargetCall   string  `json:"targetCall,omitempty"`     // bias rejects onto calls whose description contains this
 }
 
 type World struct {
